@@ -73,6 +73,7 @@ type Run struct {
 	obligs   int
 	threads  *threadState
 	pools    map[*value][]value // sync.Pool model: objects put back, per pool
+	freeMaps bool               // verif.FreeMapOrder(true): map iteration order is a free decision in cfg.MapOrder functions
 	exitCode *int
 	why      string
 	qkinds   map[string]int
